@@ -72,8 +72,34 @@ func (w *vWorld) unresolvableFrom(start vNodeID) bool {
 	return false
 }
 
-func vh_C08_faults() {
-	w := vWorldFaulty()
+func vh_C08_faults() { vC08Run(vWorldFaulty()) }
+
+// every keyword position, with the reference one level below it (a sub-schema of the sub-schema)
+func vWorldFaultyDeep() *vWorld {
+	vUseURLSet(0)
+	kp := vChoose(len(vKwPos), "kwpos.deep")
+	t := vPickRef("T", vURoot, []vTarget{
+		{doc: vURoot, frag: "/definitions/B", single: true},
+		{doc: vURoot, frag: "/definitions/Nope", single: true},
+		{doc: "file:///w/missing.json", frag: "/x", single: true},
+		{doc: vURoot, frag: "/info/title", single: true},
+	})
+	inner := ""
+	if t != "" {
+		inner = `{"description":"inner","properties":{"extra":` + vRefJSON(t) + `}}`
+	}
+	w := &vWorld{root: vURoot, docs: map[string]string{}, fail: map[string]bool{}}
+	w.docs[vURoot] = `{"swagger":"2.0","info":{"title":"t","version":"1"},"paths":{},` +
+		`"definitions":{"A":` + vDefJSON("la", kp, inner) + `,"B":{"description":"lb"}}}`
+	return w
+}
+
+func vh_C08_deep() { vC08Run(vWorldFaultyDeep()) }
+
+// operations: all methods, a path-level parameter, an operation without responses whose parameter reference may dangle
+func vh_C08_ops() { vC08Run(vWorldOps(true)) }
+
+func vC08Run(w *vWorld) {
 	root, ok := w.decodeRoot()
 	if !ok {
 		return
